@@ -94,7 +94,8 @@ def parse_kani(out):
 
 
 def kani_run(crate_dir, target_dir, harness_filters, flags, timeout, jobs=14, env=None):
-    shutil.copyfile(os.path.join(REPO, 'Cargo.lock'), os.path.join(crate_dir, 'Cargo.lock'))
+    if not crate_dir.startswith(REPO):
+        shutil.copyfile(os.path.join(REPO, 'Cargo.lock'), os.path.join(crate_dir, 'Cargo.lock'))
     cmd = ['cargo', 'kani', '-Z', 'stubbing', '-Z', 'unstable-options', '-j', str(jobs), '--output-format', 'terse']
     for h in harness_filters:
         cmd += ['--harness', h]
@@ -120,6 +121,7 @@ def run_kani(spec, tier):
     if spec.get('tier_env'):
         env[spec['tier_env']] = tier
     inputs = [os.path.join(crate_dir, 'src'), os.path.join(crate_dir, 'Cargo.toml'), os.path.join(crate_dir, 'build.rs'),
+              os.path.join(VERIF, 'kani', 'incrate') if spec['crate'] == 'incrate' else os.path.join(crate_dir, 'Cargo.toml'),
               os.path.join(REPO, 'Cargo.lock')] + [os.path.join(REPO, c) for c in spec.get('repo_crates', [])]
     key = _hash_inputs(inputs, {'h': spec['harnesses'], 'f': flags, 'v': 'kani-0.68.0', 'e': env})
     cache_file = os.path.join(BUILD, 'kani-cache', '%s-%s.json' % (name, key))
@@ -210,7 +212,12 @@ def run_kani(spec, tier):
 
 
 def crate_dir_of(crate):
-    return os.path.join(VERIF, 'gk') if crate == 'gk' else os.path.join(VERIF, 'kani', crate)
+    if crate == 'gk':
+        return os.path.join(VERIF, 'gk')
+    if crate == 'incrate':
+        # harnesses included into the truc crate itself by the cfg(kani) hooks
+        return os.path.join(REPO, 'truc')
+    return os.path.join(VERIF, 'kani', crate)
 
 
 _BUILTIN = [
@@ -234,9 +241,10 @@ def failure_props(h, failed_checks):
         for sub, ps in _BUILTIN:
             if sub in fc[0]:
                 props.update(ps)
-    m = re.search(r'(?:^|::)(c\d\d)_', h)
-    if m:
+    for m in re.finditer(r'(?:^|::|_)(c\d\d)_', h):
         props.add(m.group(1).upper())
+    if re.search(r'(?:^|::)l4_', h):
+        props.update(['C01', 'C02', 'C03', 'C12'])
     return sorted(props)
 
 
@@ -287,7 +295,7 @@ def make_replay(pid, spec, r, f, base):
            '--harness', f['harness'], '--output-format', 'terse'] + [x for x in f.get('flags', [])]
     playback = ''
     out = ''
-    if not f.get('no_playback'):
+    if not f.get('no_playback') and crate != 'incrate':
         rc, out, err, wall, to = _sh(cmd, 1500, cwd=crate_dir, env=dict(spec.get('env', {}), CARGO_TARGET_DIR=target_dir, GK_TIER=tier_of(spec)))
         blocks = re.findall(r'```\n(.*?)```', out, re.S)
         blocks = [b for b in blocks if 'Check for `cover`' not in b]
